@@ -193,13 +193,34 @@ def rule_r3(prog, res) -> None:
         res.violation("C12.R3", fc, loops[0].ast, "links are computed without a dominating centre-alignment check", key_extra="alignment-guard")
     cc = prog.func("check_patch_conistency")
     res.touch(cc)
-    cfg2 = cfg_of(cc.node)
-    tests = [t for t in cfg2.nodes if t.kind == "test" and any(raise_dominated_by(cfg2, b) for pol, b in branch_nodes_of(cfg2, t).items() if pol)]
+    # decided on the symbolic store (closures looked through, any(… for cat in others) read as "for some other catalog"):
+    # some raising path is taken exactly when, for an element of the *other catalogs, the centre distance divided by
+    # the radius exceeds rtol
+    from .. import symx
+
+    vararg = cc.node.args.vararg.arg if cc.node.args.vararg else None
+    rt = None
+    a_ = cc.node.args
+    for p_, d in zip(a_.kwonlyargs, a_.kw_defaults):
+        if p_.arg == "rtol" and isinstance(d, ast.Constant):
+            rt = d.value
+    paths = symx.explore(prog, cc, inline=symx.inline_private_helpers(prog))
+    raising = [p for p in paths if p.outcome == "raise"]
     good = False
-    for t in tests:
-        for cmp_ in [x for x in ast.walk(t.expr) if isinstance(x, ast.Compare)]:
-            l = cmp_.left
-            if isinstance(l, ast.BinOp) and isinstance(l.op, ast.Div) and "dist" in unparse(l.left) and "radi" in unparse(l.right):
+    per_cat = False
+    in_loop = False
+    for p in raising:
+        for t, pol in p.literals():
+            if not pol:
+                continue
+            for cmp_ in [x for x in ast.walk(t) if isinstance(x, ast.Compare) and len(x.ops) == 1]:
+                l = cmp_.left
+                if not (isinstance(l, ast.BinOp) and isinstance(l.op, ast.Div)):
+                    continue
+                num_dist = [y for y in ast.walk(l.left) if isinstance(y, ast.Call) and isinstance(y.func, ast.Attribute) and y.func.attr == "distance"]
+                den_rad = any(isinstance(y, ast.Call) and isinstance(y.func, ast.Attribute) and y.func.attr == "get_radii" for y in ast.walk(l.right))
+                if not num_dist or not den_rad:
+                    continue
                 try:
                     far = ceval(cmp_, {unparse(l): 2.0, "rtol": 0.5})
                     near = ceval(cmp_, {unparse(l): 0.1, "rtol": 0.5})
@@ -207,15 +228,10 @@ def rule_r3(prog, res) -> None:
                     continue
                 if far and not near:
                     good = True
-    rt = None
-    a = cc.node.args
-    for p, d in zip(a.kwonlyargs, a.kw_defaults):
-        if p.arg == "rtol" and isinstance(d, ast.Constant):
-            rt = d.value
-    loops2 = [n for n in cfg2.nodes if n.kind == "for"]
-    vararg = cc.node.args.vararg.arg if cc.node.args.vararg else None
-    in_loop = loops2 and vararg and unparse(loops2[0].expr) == vararg and all(any(cfg2.dominates(loops2[0], t) for _ in [0]) for t in tests)
-    per_cat = any("get_centers" in unparse(c) for c in calls_in(cc) if isinstance(c.func, ast.Attribute) and c.func.attr == "distance")
+                if any("get_centers" in unparse(c) for c in num_dist):
+                    per_cat = True
+                if vararg and symx.mentions(l.left, lambda y: isinstance(y, ast.Call) and isinstance(y.func, ast.Name) and y.func.id == symx.ELEM and y.args and symx.mentions(y.args[0], lambda z: isinstance(z, ast.Name) and z.id == vararg)):
+                    in_loop = True
     if good and rt is not None and rt <= 1 and in_loop and per_cat:
         res.ok("C12.R3", res.site(cc), f"for every other catalog: raises if centre distance / radius > rtol (= {rt} <= 1)")
     else:
